@@ -45,7 +45,7 @@ func (fr *Frame) makeSlice(st *State, elem types.Type, ln, cp *Term) *Term {
 	r := fr.newRef(st, "arr")
 	c, cs := ex.elemsComp(elem)
 	es := ex.ctx.SortOf(elem)
-	z := App("(as const "+ArraySort(SInt, es)+")", ArraySort(SInt, es), ex.ctx.Zero(elem))
+	z := ex.ctx.ConstArray(SInt, es, ex.ctx.Zero(elem))
 	ex.set(st, c, Store(ex.get(st, c, cs), r, z))
 	return MkSlice(r, IntLit(0), ln, cp)
 }
